@@ -27,15 +27,19 @@ def goSearch (f : Nat → Bool) : Nat → Nat → Nat → Nat
       if !f h then goSearch f fuel (h + 1) j else goSearch f fuel i h
     else i
 
+/-- the predicate `ShardGroupAt` hands to `sort.Search`: `l.items[i].EndTime.After(t)` -/
+def endAfter (items : List ShardGroupInfo) (t : Int) (i : Nat) : Bool :=
+  match items[i]? with
+  | some g => Time.After g.EndTime t
+  | none => true
+
 /-- `sgList.ShardGroupAt(t)`: the (sorted) items and the group found -/
 def SgList.shardGroupAt (l : SgList) (t : Int) : SgList × Option ShardGroupInfo :=
   if l.items.length == 0 then (l, none) else
   let items := sgSort l.items
   let l' := { l with items := items }
   let n := items.length
-  let idx := goSearch (fun i => match items[i]? with
-      | some g => Time.After g.EndTime t
-      | none => true) (n + 1) 0 n
+  let idx := goSearch (endAfter items t) (n + 1) 0 n
   let direct : Option ShardGroupInfo :=
     match items[idx]? with
     | some g => if Time.Before t g.StartTime then none else some g
